@@ -3,7 +3,7 @@ from .core import BASE_TRUST, LEAN, Problem
 
 META = {
     "category": "proof",
-    "text": "PARTIAL. Lean 4 proof of the access discipline (own-index with disjoint ranges / sole goroutine / common lock / synchronisation object / read-only => no data race in ANY interleaving of ANY fork-join execution, all n, all access lists) and of the partition GoroutineTaskManager.RecordRange as generated from the source on every run (disjoint, tiles [0,len) in order, all len, all n>0; plus the stride and partition index spaces); the access facts of every worker closure of lib/query are regenerated from /repo and checked by `decide` (theorems facts_ok, facts_consistent, manager_fields_locked: consistent per location, NO unguarded access; pre-finding F7 was repaired in /repo by commit bec97d6 and stays watched: a new unguarded access breaks facts_ok and is reported as race:<file>:<function>:<variable>). TRUSTED, not proved: the step 'syntactic class => actual access pattern of the running program' (plain function callees of the closures are not analysed; methods called on shared objects are summarised from their source) and the Go memory model; cross-checked on every run by the Go race detector over filter/join/group/order/distinct/analytic/DML/file-load workloads at @@CPU 2..8. Objects that reach two goroutines WITHOUT a closure capturing them are covered by two further fact families checked by `decide` (release facts: no path of lib/query gives a node scope / block scope / merged record / key buffer back to its sync.Pool twice, deferred calls included — theorems pooled_objects_released_at_most_once, scopes_released_exactly_once; header facts: a view that takes another view's header instead of a copy is not written through — shared_headers_not_written, header_write_sites_reviewed) and by laws on the real code in the race workloads (pool probe after every failing statement of a history: objects taken from the scope pools while all are held are pairwise distinct; results of parallel sub-query statements unchanged after a history of failures; evaluating an expression for one record leaves the view's header and records unchanged)",
+    "text": "PARTIAL. Lean 4 proof of the access discipline (own-index with disjoint ranges / sole goroutine / common lock / synchronisation object / read-only => no data race in ANY interleaving of ANY fork-join execution, all n, all access lists) and of the partition GoroutineTaskManager.RecordRange as generated from the source on every run (disjoint, tiles [0,len) in order, all len, all n>0; plus the stride and partition index spaces); the access facts of every worker closure of lib/query are regenerated from /repo and checked by `decide` (theorems facts_ok, facts_consistent, manager_fields_locked: consistent per location, NO unguarded access; pre-finding F7 was repaired in /repo by commit bec97d6 and stays watched: a new unguarded access breaks facts_ok and is reported as race:<file>:<function>:<variable>). TRUSTED, not proved: the step 'syntactic class => actual access pattern of the running program' (methods called on shared objects of foreign types are summarised from their source) and the Go memory model; since the interprocedural extension the functions CALLED from the closures are analysed too (call graph of lib/query, lib/value, lib/option resolved with go/types; every access through an object several goroutines can reach, with the locks held in the function, at all its call sites, or handed on by a callee: theorems callee_facts_ok, callee_locks_consistent, no_unguarded_package_state (process-wide caches and pools are sync.Map / sync.Pool / sync.Once / own lock), reachable_set_pinned (ways out of the analysed code and the set of functions that write shared state are pinned)); the abstraction 'shared or own object' is syntactic and stays trusted; cross-checked on every run by the Go race detector over filter/join/group/order/distinct/analytic/DML/file-load workloads at @@CPU 2..8. Objects that reach two goroutines WITHOUT a closure capturing them are covered by two further fact families checked by `decide` (release facts: no path of lib/query gives a node scope / block scope / merged record / key buffer back to its sync.Pool twice, deferred calls included — theorems pooled_objects_released_at_most_once, scopes_released_exactly_once; header facts: a view that takes another view's header instead of a copy is not written through — shared_headers_not_written, header_write_sites_reviewed) and by laws on the real code in the race workloads (pool probe after every failing statement of a history: objects taken from the scope pools while all are held are pairwise distinct; results of parallel sub-query statements unchanged after a history of failures; evaluating an expression for one record leaves the view's header and records unchanged)",
     "design_ref": "DESIGN.md section 5, C13",
     "note": "trusted: Lean kernel (propext, Classical.choice, Quot.sound only), the extractor extract/parfacts (syntactic, go/types; refuses unknown constructs), the lockset definition of a race in Csvq/Model/ForkJoin.lean as a rendering of the Go memory model for fork-join regions, Go's race detector (finds only races that occur in the executed schedules), 64-bit overflow ignored in RecordRange",
     "technique": "Lean 4 machine-checked proof of a race-freedom discipline + facts regenerated from the Go source (go/ast, go/types) checked by kernel evaluation + dynamic cross-check with `go build -race`",
@@ -33,6 +33,8 @@ def run(run):
         "KNOWN FINDING F79 (not repaired): the cursor status readers (Cursor.IsOpen/IsInRange/Count/Pointer, first line of Fetch) read c.view/c.index/c.fetched without c.mtx; re-found statically and by the race detector on every run, accepted only under its own signature",
         "F7 (HasError/Err without the mutex; pos/err shared by the loader goroutines) is fixed in /repo (bec97d6); the sites are still extracted, proved guarded/atomic/sole-goroutine on every run and exercised under the race detector",
         "TRUSTED: an access the extractor classifies ownIndex/guarded/chan/wg/readOnly really has that access pattern at run time (functions CALLED from the worker closures are not analysed, except METHODS called on a shared object: their source (module, dependencies, standard library) is summarised into reads/writes of the receiver's fields, transitively over the type's own methods and one level into the fields' methods; unresolved effects count as writes; package-level variables of lib/query, lib/value and lib/option written by any function (assignment, element assignment, receiver-changing method) need a lock, a sync.Once or a concurrency-safe type, because every function may run on a worker; fields and package-level variables handed to sync/atomic anywhere in lib/query must not be accessed plainly elsewhere (mixed atomic / plain access, the shape of F81); objects a function takes from the context (ctx.Value(key).(*T)) are treated as shared by all workers of the statement, so a write to one needs a lock; a receiver handed on as an argument and local aliases of receiver fields are not followed)",
+        "INTERPROCEDURAL (extract/parfacts/interproc.go): the functions of lib/query, lib/value, lib/option the worker bodies reach are found with a call graph resolved by go/types (static calls, methods, interface methods by the implementing types of these packages, function values by signature among the functions and literals whose value is taken); calls into the standard library stop there (packages pinned), other calls out of the three packages and unresolved ones are pinned as opaque (methods by receiver type). Whether an object is shared (reachable from a captured variable of a worker closure, a parameter of a goroutine body, a package-level variable) or the executing goroutine's own (composite literal, make, new, sync.Pool.Get, what a function returns that makes it, a struct value copy) is an inclusion-based abstraction: one abstract object per allocation site / variable version with fields, elements and element 0, flow-sensitive for plain local variables (branches joined, loops to a fixpoint, nil-guarded overwrites `if x.f != nil { x.f = … }` recognised), context-insensitive (the arguments of all call sites of a function are joined; locks held on entry = held at EVERY call site; a lock a function returns holding on its success path is held by the caller after the call). TRUSTED about it: an own object stored into a shared structure is still treated as own afterwards; what a callee stores into the fields of its caller's own object is seen only through results; reflection / unsafe are not followed; conditions are not evaluated (a write under `if 0 < len(alias)` counts whatever the callers pass) — facts that exist only because of the joins are on the reviewed list of Csvq/Props/C13.lean with the reason",
+        "KNOWN (finding F110, accepted by Csvq.C13.openLocations): a user-defined function evaluated by parallel workers that executes SOURCE / loads a file (file.Container.m, a plain map: Container.Add / Remove — confirmed by the race detector), ALTER TABLE … SET (FileInfo.*), COMMIT or tables from URLs / STDIN (Transaction.UrlCache, stdinIsLocked) changes state that other workers read without a common lock",
         "TRUSTED: Go memory model; a data race is rendered as: two accesses of different goroutines of one fork-join region, same location, one a write, disjoint locksets, not both operations of a synchronisation object",
         "index space 'partition' (analytic functions): the row numbers a worker draws from its own partitions[...] element belong to that partition (proved: distinct partitions are disjoint, partitions_disjoint)",
         "RecordRange arithmetic is translated over unbounded Int (no 64-bit overflow: every intermediate value is at most recordLen)",
@@ -46,7 +48,40 @@ def run(run):
     ok2 = run.regen("recordrange", argv + ["recordrange"], "Csvq/Gen/RecordRange.lean")
 
     facts = parse_facts() if ok1 else []
-    ung = [f for f in facts if f["cls"] == "unguarded"]
+    # the interprocedural region (callees of the worker bodies): unguarded accesses are accepted at the known / reviewed /
+    # open locations listed in Csvq/Props/C13.lean (the lists are read from there: one source), a write only in a pinned function
+    callee_region, lists = -1, {}
+    pfile = LEAN / "Csvq" / "Gen" / "ParFacts.lean"
+    if ok1 and pfile.exists():
+        m = re.search(r"def calleeRegion : Nat := (\d+)", pfile.read_text())
+        if m:
+            callee_region = int(m.group(1))
+    props = (LEAN / "Csvq" / "Props" / "C13.lean").read_text()
+    for nm in ("f105Locations", "f79Locations", "reviewedLocations", "openLocations", "pinnedUnguardedWriters"):
+        m = re.search(r"def %s : List String := \[(.*?)\]\n" % nm, props, re.S)
+        lists[nm] = set(re.findall(r'"((?:[^"\\]|\\.)*)"', m.group(1))) if m else set()
+    callee_status = {"F105": 0, "F79": 0, "reviewed": 0, "OPEN": 0}
+    open_sites = set()
+
+    def callee_accepted(f):
+        if f["region"] != callee_region:
+            return False
+        st = ("F105" if f["var"] in lists["f105Locations"] else "F79" if f["var"] in lists["f79Locations"] else
+              "reviewed" if f["var"] in lists["reviewedLocations"] else "OPEN" if f["var"] in lists["openLocations"] else None)
+        if st is None or (f["rw"] == "w" and f["fn"] not in lists["pinnedUnguardedWriters"]):
+            return False
+        callee_status[st] += 1
+        if st == "OPEN":
+            open_sites.add("%s in %s" % (f["var"], f["fn"]) if f["rw"] == "w" else f["var"])
+        return True
+
+    ung = [f for f in facts if f["cls"] == "unguarded" and not callee_accepted(f)]
+    if open_sites:
+        # recorded as known finding F110 (same class as F105): reported through the known-findings triage, not printed here
+        run.problems.append(Problem(
+            "direct", "race:callee:session_state_written_by_statement_in_user_function",
+            {"what": "state of the session / transaction / table files changed without a common lock by a statement that a user-defined function executes while parallel workers evaluate it (static callee facts; accepted by Csvq.C13.openLocations)",
+             "sites": sorted(open_sites)[:60]}, concrete=False))
     sites = {}
     for f in ung:
         sites.setdefault(site(f), []).append(f)
@@ -127,6 +162,16 @@ def run(run):
                 run.problems.append(Problem("direct", sg, {"what": "a statement writes a field of an element of a header its function did not make (not in the reviewed list Csvq.C13.reviewedHeaderWrites): is the header reachable from several goroutines?",
                                                            "where": "%s:%s" % (m.group(1), m.group(2))}, concrete=False, signature=sg))
 
+    go_writes = []
+    if ok1 and pf.exists():
+        m = re.search(r"def outsideGoWrites : List \(String × String × String\) := \[(.*?)\]\n", pf.read_text(), re.S)
+        if m:
+            for g in re.finditer(r'\("([^"]*)", "([^"]*)", "([^"]*)"\)', m.group(1)):
+                sg = "gowrite:%s:%s:%s" % g.groups()
+                go_writes.append(sg)
+                run.problems.append(Problem("direct", sg, {"what": "a goroutine literal outside lib/query assigns a variable of the function around it: written by the goroutine, read by its parent, nothing orders the two (results are to be handed over through a channel)",
+                                                           "file": g.group(1), "function": g.group(2), "variable": g.group(3)}, concrete=False, signature=sg))
+
     if ok1 and ok2:
         run.obligations_for(["Csvq.Props.C13"])
 
@@ -139,7 +184,8 @@ def run(run):
     regions_at = {}   # (file, line) of any fact -> regions
     for f in facts:
         regions_at.setdefault((f["file"], f["line"]), set()).add(f["region"])
-        if f["cls"] == "unguarded":
+        if f["cls"] == "unguarded" and f["region"] != callee_region:
+            # (race reports in the callees keep their own signature law:race:<frames>: the known findings are recorded under it)
             by_line.setdefault((f["file"], f["line"]), []).append((f["region"], site(f)))
     confirmed, unexplained = set(), 0
     for p in run.problems[before:]:
@@ -174,6 +220,9 @@ def run(run):
         "access_facts": len(facts), "access_fact_classes": dist, "fork_join_regions": len({f["region"] for f in facts}),
         "unguarded_sites_static": sorted(sites), "unguarded_sites_confirmed_by_race_detector": sorted(confirmed),
         "race_reports_outside_unguarded_sites": unexplained, "copy_methods_sharing_state": copy_shared,
+        "callee_facts": len([f for f in facts if f["region"] == callee_region]), "callee_unguarded_accepted_by_status": callee_status,
+        "callee_open_sites": sorted(open_sites),
+        "goroutine_literals_outside_query_assigning_captured_variables": go_writes,
         "release_facts": n_release, "double_releases_static": double_release, "release_leaks_not_reviewed": release_leaks,
         "header_share_facts": n_hshare, "shared_headers_written_static": header_shared, "header_write_facts": n_hwrite, "header_writes_not_reviewed": header_writes,
     }
@@ -184,7 +233,7 @@ def run(run):
         level="proof",
         rule="static: every access to a shared variable in every fork-join region of lib/query (closures passed to GoroutineTaskManager.Run / EvaluateSequentially, bodies started with go, the parent between fork and join, methods of the manager types), classified and checked by kernel evaluation; dynamic: a load matrix first (CSV, TSV, fixed-length, LTSV, JSONL, JSON; from a file and from stdin; with and without header; row counts 159/161/299/301/650 in the quick tier and 1..2500 around 80, 160, 300, 320, 600, 640 in the thorough tier, on both sides of the 300-record loader buffer and of the 80-rows-per-worker threshold; @@CPU 1, 2, 4, 8), then correlated sub-queries (EXISTS, IN, scalar, NOT EXISTS under GROUP BY) with 10-12 distinct outer-column references over an outer table below and above the per-worker split size, then loads that fail in the middle of a file (surplus field, broken quote, LTSV line without separator, broken / non-object JSON line; at record 2, 350, 690 of 700; file and stdin) and loads cancelled after 50 µs … 8 ms, then inline tables (JSON_INLINE, CSV_INLINE) inside per-record sub-queries and set operations inside a sub-query of a recursive term (F80, F81, both fixed), then the function grid (every built-in scalar function of the Functions map evaluated per record over 700 rows, one type vector per first-argument type, in batches of 8 at @@CPU 2/4/8, plus value-dependent FORMAT / REGEXP / DATETIME / NUMBER_FORMAT calls) and STDIN touched for the first time inside a per-record sub-query (IN, EXISTS, scalar, LATERAL, ORDER BY), then ALTER TABLE ADD with columns without DEFAULT, with sub-query defaults and in every position on a 700-row table, then histories (every clause of a SELECT — WITH, select list, FROM, derived table, join condition, WHERE, GROUP BY, HAVING, ORDER BY, LIMIT, LIMIT PERCENT, OFFSET with and without LIMIT / WITH — made to fail by a missing field, a wrong argument count, a sub-query with too many rows or a user-defined function that raises, the failing SELECT standing as a statement, in WHERE IN / EXISTS / select list / ORDER BY of a parallel outer query, as derived table, LATERAL, set-operation operand, cursor query, INSERT … SELECT, UPDATE WHERE / SET, DELETE, CREATE TABLE AS, inside a function body, an IF block, a WHILE block and SELECT INTO: quick 56 of the 252 combinations, every clause and every position, thorough all; pass 1 at @@CPU 1 with the pool probe after every failing statement, pass 2 at @@CPU 4 (thorough 4, 2, 8) all failing statements, then five parallel statements with aliased sub-queries, joins and WITH per record whose output is compared with the output before the history), then per-record view builders (JSON_OBJECT with no members, *, table.*, plain columns, plain columns renamed, renamed to the same name, column numbers, * plus a renamed column, computed members, a sub-query member, a user-function member, nested JSON_OBJECT; correlated scalar / EXISTS / IN sub-queries, nested user-function calls, CASE over JSON_OBJECT, NOW / RAND) in the select list and WHERE of a 330-row (thorough 700) table for every expression and in ORDER BY / GROUP BY / HAVING / join condition / aggregate argument / analytic argument / UPDATE SET / INSERT … SELECT rotating (thorough: every clause, @@CPU 2, 4, 8), with the deterministic laws record_evaluation_leaves_view_unchanged and inner_names_stay_inside, then user-defined functions that change state per record (own variables, session variables, own temporary tables, cursors, nested functions, environment variables, blocks, recursion) in WHERE / select list / ORDER BY / GROUP BY / a sub-query, then RAND / NOW / JSON_OBJECT, a user-defined function that FETCHes an outer cursor called from a parallel WHERE / select list next to CURSOR … IS OPEN / IS IN RANGE / COUNT (known finding F79), list aggregates WITHIN GROUP ordered by expressions over derived tables with many groups, prepared statements executed USING literals, variables, arithmetic and sub-queries (positional and named placeholders, GROUP BY/HAVING, UPDATE, cursors declared for prepared statements), then statements of 47 kinds (6 file formats, filters, 7 join forms, GROUP BY/HAVING, ORDER BY, DISTINCT, set operators, 4 analytic families, recursive CTE, DML, cursor, 6 failing statements) on tables of 200-3000 rows with @@CPU drawn from 2..8 under the race detector; non-trivial = distinct (statement kind, @@CPU, row band, error code)",
         trusted_base=BASE_TRUST + [
-            "extract/parfacts: syntactic access classification (go/ast + go/types), refuses constructs without a rule; plain function callees of worker closures are not analysed; method summaries are syntactic; release facts (paths counted over structured control flow) and header facts (syntactic freshness, statements following in the same function)",
+            "extract/parfacts: syntactic access classification (go/ast + go/types), refuses constructs without a rule; callees of the worker closures through a go/types call graph and an inclusion-based shared/own abstraction (context-insensitive); method summaries are syntactic; release facts (paths counted over structured control flow) and header facts (syntactic freshness, statements following in the same function)",
             "the Go memory model, rendered as the lockset race definition of Csvq/Model/ForkJoin.lean",
             "the Go race detector (dynamic cross-check; sees only the schedules that occurred)"],
         checker_cmd="cd /verif && go run -C extract/parfacts . parfacts > lean/Csvq/Gen/ParFacts.lean && go run -C extract/parfacts . recordrange > lean/Csvq/Gen/RecordRange.lean && cd lean && lake build Csvq.Props.C13 && lake env lean <#print axioms for every theorem>; cd /verif/harness && CGO_ENABLED=1 go build -race -tags verif ./cmd/c13",
